@@ -17,6 +17,7 @@ import ArvVerif.Proofs.C05Lost
 import ArvVerif.Proofs.C05Setup
 import ArvVerif.Proofs.C05Plan
 import ArvVerif.Proofs.C05Enum
+import ArvVerif.Proofs.C05BlockState
 import ArvVerif.Proofs.C05Witness
 namespace ArvVerif.C05
 
@@ -347,6 +348,26 @@ theorem C05_setup_tables (dflt : Class) (svcs : List RawService) :
 example : classesOf 1 (cleanupMounts rawLayout) = [1, 3] ∧
     (effMounts 1 (cleanupMounts rawLayout)).map (fun m => (m.id, m.ro, m.classes)) =
       [(0, false, [1]), (2, true, [1]), (3, true, [3])] := by decide
+
+/-! ## how a block's state is gathered (block_state.go) -/
+
+/-- Whatever the order in which index entries and collections arrive: the desired replication
+balanceBlock reads for class `c` is the largest replication any collection referencing the block
+asks for in `c` (a collection that lists no class counts for `default`) — it is never lowered — and
+the replicas are the index entries in arrival order. -/
+theorem C05_gather_desired_is_max (dflt : Class) (ops : List BlockOp) (c : Class) :
+    desiredOf (gather dflt ops) c = ops.foldl (wantStepOf dflt c) 0 ∧
+    (gather dflt ops).replicas = ops.filterMap BlockOp.repOf := by
+  constructor
+  · exact foldl_applyOp_desired dflt c ops BlockSt.empty
+  · have := foldl_applyOp_replicas dflt ops BlockSt.empty
+    simpa [gather, BlockSt.empty] using this
+
+example :
+    let ops : List BlockOp := [.coll (some 1) [] 2, .rep ⟨0, 0, 900⟩, .coll (some 2) [3, 0] 1, .coll none [3] 4]
+    desiredOf (gather 0 ops) 0 = 2 ∧ desiredOf (gather 0 ops) 3 = 4 ∧ desiredOf (gather 0 ops) 7 = 0 ∧
+    (gather 0 ops).replicas = [⟨0, 0, 900⟩] ∧ lostRefs (gather 0 ops) = [] ∧
+    lostRefs (gather 0 [.coll (some 1) [] 2, .coll (some 5) [] 1, .coll (some 1) [3] 1]) = [1, 5] := by decide
 
 /-! ## the central clause -/
 
